@@ -178,9 +178,27 @@ REG.classes["TableMethod"].fields.update({"_shifts": List(List(Opt(Int))), "_gap
 _TM_STATE = ["self._current_gap", "*self._processing_queue", "*self._rule_holding_extra_terms"]
 _TM_FUN = ["*self._function._value", "*self._function._preimage_count._list", "self._function._infinity_count",
            "all:List(Opt(Int))"]
-contract(F, "TableMethod._correct_gap", props=["C03"], verify=False, aliases=FAL,
-         trusted_reason="gap bookkeeping of the table method: only its frame is used here (bounded stand-in c03)",
-         params={"self": Obj("TableMethod")}, modifies=_TM_STATE)
+contract(F, "TableMethod._correct_gap", props=["C03"], aliases=FAL,
+         params={"self": Obj("TableMethod")},
+         requires=["self._gap_size >= 1"],
+         ensures=[
+             # the gap is the first window of _gap_size unused values
+             "self._current_gap[0] == last_result('Function.preimage_gap')",
+             "self._current_gap[1] == self._current_gap[0] + self._gap_size - 1",
+             # when the window moved to the right, the held rules leave the holding set and as many entries are queued
+             # (that the queued entries ARE the held rules is not stated: membership in a deque after extend-from-set is
+             # beyond the solvers here; the bounded stand-in c03 covers it)
+             "implies(self._current_gap[1] > old(self._current_gap[1]), len(self._rule_holding_extra_terms) == 0)",
+             "implies(self._current_gap[1] > old(self._current_gap[1]), "
+             "len(self._processing_queue) == old(len(self._processing_queue)) + old(len(self._rule_holding_extra_terms)))",
+             "implies(not (self._current_gap[1] > old(self._current_gap[1])), "
+             "forall(lambda r: (r in self._rule_holding_extra_terms) == old(r in self._rule_holding_extra_terms)) and "
+             "len(self._processing_queue) == old(len(self._processing_queue)))",
+             # nothing already queued is lost
+             "forall(lambda i: implies(0 <= i and i < old(len(self._processing_queue)), "
+             "self._processing_queue[i] == old(self._processing_queue[i])))"],
+         modifies=_TM_STATE,
+         notes="gap bookkeeping: window position and the requeue of held rules")
 contract(F, "TableMethod._process_queue", props=["C03"], verify=False, aliases=FAL,
          trusted_reason="the propagation loop of the table method: only its frame is used here; its result (least fixed point) "
                         "is the subject of the bounded stand-in c03",
@@ -188,8 +206,8 @@ contract(F, "TableMethod._process_queue", props=["C03"], verify=False, aliases=F
 contract(F, "TableMethod.add_rule_key", props=["C03", "C11"], lenient=True, aliases=FAL,
          params={"self": Obj("TableMethod"), "rule_key": ForestRuleKey},
          # every child of an inserted key is paired with a shift (otherwise zip() silently drops the child)
-         requires=[_WFKEY.format(k="rule_key")],
-         ensures=["len(self._rules) == old(len(self._rules)) + 1", "self._rules[len(self._rules) - 1] == rule_key",
+         requires=[_WFKEY.format(k="rule_key"), "self._gap_size >= 1"],
+         ensures=["self._gap_size >= 1", "len(self._rules) == old(len(self._rules)) + 1", "self._rules[len(self._rules) - 1] == rule_key",
                   "forall(lambda i: implies(0 <= i and i < old(len(self._rules)), self._rules[i] == old(self._rules[i])))"],
          modifies=["*self._rules", "*self._shifts", "self._gap_size", "all:List(Int)"] + _TM_STATE + _TM_FUN,
          notes="the key is stored as given; its initial shifts are computed from well-formed data (call-site obligations of "
